@@ -111,7 +111,7 @@ def run(ctx):
     G = [
         ('varint-prefix', 'VarInt as MlsDecode::mls_decode', '>=', r'^\(MlsDecode::mls_decode\(reader\) Shr const 6\)$', r'^const 3$', 'InvalidVarIntPrefix'),
         ('varint-minimal', 'VarInt as MlsDecode::mls_decode', '!=', r'count_bytes_to_encode_int', r'.', 'VarIntMinimumLengthEncoding'),
-        ('varint-range', 'mls_rs_codec|<varint::VarInt as std::convert::TryFrom<u32>>::try_from', '>', r'^n$', r'VarInt::MAX', 'VarIntOutOfRange'),
+        ('varint-range', 'mls_rs_codec|<varint::VarInt as std::convert::TryFrom<u32>>::try_from', '>', r'^n$', r'VarInt::MAX|1073741823', 'VarIntOutOfRange'),
         ('length-prefix-within-input', 'iter::mls_decode_split_on_collection', '>', r'^MlsDecode::mls_decode\(reader\)$', r'^\[T\]::len\(reader\)$', 'UnexpectedEOF'),
         ('vec-zero-progress', 'Vec as MlsDecode::mls_decode::{closure#0}', '==', r'^\[T\]::len\(data\)$', r'^\[T\]::len\(data\)$', 'InvalidContent'),
         ('hashmap-zero-progress', 'HashMap as MlsDecode::mls_decode::{closure#0}', '==', r'^\[T\]::len\(data\)$', r'^\[T\]::len\(data\)$', 'InvalidContent'),
